@@ -7,14 +7,18 @@
    `eval fuel c n` is Rule.get_terms/_ensure_level through the children's
    get_terms, with explicit fuel.  T is the TRUE enumeration of every class.
 
-   Hypotheses, each discharged elsewhere:
-     genuine  (C09)  fed with the true tables of its children a rule returns the
-                     true table of its parent — the strategy contract
-     local    (C10)  a rule reads child i only at sizes <= n - shift_i and its own
-                     terms only below n
-     closed, one rule per class (C02)  `spec` is a function and every child has a rule
-     productive (C02/C03/C11)  every class pumps w.r.t. the forest keys
-                     (parent, children, declared shifts) of the specification.
+   Hypotheses of the first six theorems (about the abstract evaluator `eval`):
+     genuine        fed with the true tables of its children a rule returns the true table of its parent
+     local          a rule reads child i only at sizes <= n - shift_i and its own terms only below n
+     keys/spec      every forest key considered belongs to a rule of `spec` with exactly those children and
+                    shifts (`spec` is a FUNCTION: one rule per class is built into its type; there is no
+                    separate closedness hypothesis — closure along derivations follows from `pumps`)
+     productive     the class pumps w.r.t. those keys (C03's notion; for RuleDBForest discharged by the
+                    pipeline theorems below, otherwise a hypothesis).
+   For rules of the LIBRARY'S constructors `local` and `genuine` are THEOREMS (second half of this file:
+   C01_srule_of_local from C10, C01_srule_of_genuine* from C09) and the executable evaluator that the
+   harness runs (Spec/CountRun.v rounds / run_c01) is proved to compute `eval` (C01_rounds_is_eval) and
+   the true tables (C01_rounds_correct, C01_run_correct).
    Conclusion: evaluation terminates (enough fuel exists) and returns the true
    counts for every class, size and parameter value; and the specification has
    no other solution. *)
@@ -421,3 +425,203 @@ Qed.
 Print Assumptions C01_forest_pipeline_correct.
 Print Assumptions C01_forest_pipeline_unique.
 Print Assumptions C01_forest_pipeline_total.
+
+
+(* ========================================================================
+   C09 / C10 -> C01: the adapter.
+
+   Spec/Adapter.v           srule_of d : the srule of a rule DESCRIPTOR as run_c01 receives it (constructor
+                            form, extra_parameters dictionaries, minimum sizes / is_atom, declared shifts,
+                            verified tables); operator = the C09 model's get_terms of that constructor
+                            (the very `*_step` functions run_c01 dispatches to) over sub-term providers.
+   Spec/AdapterLocal.v      C10 -> `local`:   the C09 term model reads only what the C10 reads model lists
+                            (bridge between the two transcriptions), C10_reads_respect_declared_shifts
+                            bounds that by the regenerated shift functions, deps_shape says the declared
+                            shifts are at most those.
+   Spec/AdapterSound.v      C09 -> `genuine`: under the per-form contract about the true tables (rule_contract:
+                            the hypotheses of C09_union / C09_product / C09_complement / C09_quotient_params /
+                            C09_quotient_parameter_free / C09_equivalence* / C09_path stated for T) the
+                            operator maps good tables to a good table and raises nothing.
+   Spec/RoundsProofs.v      the extracted bottom-up evaluator computes `eval (spec_of ds)` and the true tables.
+   Spec/RoundsStuck.v       what status "stuck" means.
+
+   Covered constructor forms: 0 union, 1 product, 2 Complement, 3 Quotient WITH and WITHOUT parameters,
+   4 equivalence of a union, 5 equivalence of a reverse union, 6 equivalence path, 7 verified.
+   Not covered (stay hypotheses): a Quotient whose parent has no parameter while a child has one; a
+   Complement/Quotient one of whose siblings is itself counted by a Complement (vpos/kpos flags: the raw
+   table of such a class contains entries of negative value and the model's entry-wise assertion could
+   fire); any other constructor. *)
+From CSS Require Import Base.Sx Count.Terms Count.Constructors Count.ConstructorsRun Count.TermsPolyOrder Count.ReadsModel
+  Spec.TermsCanon Spec.Adapter Spec.AdapterLocal Spec.AdapterSound Spec.AdapterGenuine Spec.RoundsProofs
+  Spec.RoundsStuck Spec.AdapterExample Spec.CountRun.
+
+(* two tables that mean the same have the same canonical form (what enc_table prints, what the harness
+   compares): the link between C09's `teq` and C01's Leibniz equality *)
+Theorem C01_canonical_form : forall a b : Count.Terms.terms, teq a b -> tnorm a = tnorm b.
+Proof. exact tnorm_unique. Qed.
+
+(* ---- C10 -> local ---- *)
+(* bridge: for the plain forms 0..3 two provider families that agree on every (provider, size) listed
+   by C10's reads model for that rule give the same result of C09's term model (errors included) *)
+Theorem C01_term_model_reads_what_the_reads_model_lists : forall d p p' o o' n,
+  0 <= c_form d <= 3 -> (2 <= c_form d -> (c_idx d < length (c_kids d))%nat) ->
+  reads_agree (c_form d) (kid_descs (c_kids d)) (Z.of_nat (c_idx d)) n p p' o o' ->
+  stepF_with d (kp_of d p) (p 0%nat) (p 0%nat) o n = stepF_with d (kp_of d p') (p' 0%nat) (p' 0%nat) o' n.
+Proof. exact stepF_reads. Qed.
+
+(* hypothesis `local` of C01_spec_correct, for the rule of ANY descriptor of forms 0..7 whose declared
+   dependencies are its children in order with shifts at most the regenerated ones *)
+Theorem C01_srule_of_local : forall d, deps_shape d -> local Count.Terms.terms (srule_of d).
+Proof. exact srule_of_local. Qed.
+
+(* ---- C09 -> genuine ---- *)
+(* up to the representation of tables: fed with good providers (tables that MEAN the true ones) and good
+   own terms, the operator returns a good table; with the true tables themselves this is the equation of
+   `genuine` up to teq *)
+Theorem C01_srule_of_genuine_up_to_representation :
+  forall T npar vpos kpos, T_ok T npar -> forall Hz c d (G : nat -> Z -> Count.Terms.terms) o n,
+  deps_shape d -> rule_contract T npar vpos kpos Hz c d ->
+  goodp T npar vpos kpos G -> (forall m, good T npar vpos kpos c m (o m)) -> 0 <= n -> (c_form d = 7 -> n <= Hz) ->
+  good T npar vpos kpos c n (r_op Count.Terms.terms (srule_of d) (fun i => G (kid_of d i)) o n).
+Proof. exact srule_of_genuine_rel. Qed.
+
+(* the step functions themselves (what run_c01 dispatches to), providers by label: no exception, good result *)
+Theorem C01_constructor_step_sound :
+  forall T npar vpos kpos, T_ok T npar -> forall Hz c d (G : nat -> Z -> Count.Terms.terms) own n,
+  rule_contract T npar vpos kpos Hz c d -> goodp T npar vpos kpos G ->
+  (forall m, good T npar vpos kpos c m (own m)) -> 0 <= n -> (c_form d = 7 -> n <= Hz) ->
+  exists r, stepF_with d (map G (c_ok d)) (G (c_op d)) (G (c_last d)) own n = Ok r /\ good T npar vpos kpos c n r.
+Proof. exact stepF_sound. Qed.
+
+(* hypotheses `local` and `genuine` LITERALLY, for the rule with canonical-form operator *)
+Theorem C01_srule_ofN_local : forall d, deps_shape d -> local Count.Terms.terms (srule_ofN d).
+Proof. exact srule_ofN_local. Qed.
+
+Theorem C01_srule_ofN_genuine :
+  forall T npar vpos kpos, T_ok T npar -> (forall l m, canon (T l m)) -> forall c d,
+  deps_shape d -> (forall Hz, rule_contract T npar vpos kpos Hz c d) -> genuine Count.Terms.terms T c (srule_ofN d).
+Proof. exact srule_ofN_genuine. Qed.
+
+(* C01_spec_correct for specifications made of the library's constructors: `local` and `genuine` are gone *)
+Theorem C01_spec_correct_constructors :
+  forall T npar vpos kpos, T_ok T npar -> (forall l m, canon (T l m)) -> forall (ds : list cdesc) (keys : list fkey),
+  (forall c d, nth_error ds c = Some d -> deps_shape d) ->
+  (forall c d, nth_error ds c = Some d -> forall Hz, rule_contract T npar vpos kpos Hz c d) ->
+  (forall k, In k keys -> exists d, nth_error ds (parent k) = Some d /\ kids k = c_deps d) ->
+  forall c, pumps keys c -> forall n, 0 <= n ->
+  exists f0, forall f, (f0 <= f)%nat -> eval Count.Terms.terms [] (spec_ofN ds) f c n = T c n.
+Proof. exact spec_ofN_correct. Qed.
+
+(* ---- the extracted evaluator ---- *)
+(* refinement: every level the bottom-up evaluator computes (any fuel) is eval of srule_of, as raw tables *)
+Theorem C01_rounds_is_eval : forall (DS : list cdesc),
+  (forall c d, nth_error DS c = Some d -> deps_shape d) ->
+  forall fuel N k errs,
+  let st := fst (rounds fuel DS N (repeat [] k) errs) in
+  forall c n, 0 <= n < zlen (tabs_of st c) ->
+  exists f0, forall f, (f0 <= f)%nat ->
+    eval Count.Terms.terms [] (spec_of DS) f c n = nth (Z.to_nat n) (tabs_of st c) [].
+Proof. exact rounds_is_eval. Qed.
+
+(* correctness: every level it computes is the true table (canonical form) *)
+Theorem C01_rounds_correct : forall (DS : list cdesc) N T npar vpos kpos,
+  T_ok T npar ->
+  (forall c d, nth_error DS c = Some d -> deps_shape d) ->
+  (forall c d, nth_error DS c = Some d -> rule_contract T npar vpos kpos N c d) ->
+  forall fuel k errs, (forall l m, canon (T l m)) ->
+  let st := fst (rounds fuel DS N (repeat [] k) errs) in
+  forall c n, 0 <= n < zlen (tabs_of st c) -> tnorm (nth (Z.to_nat n) (tabs_of st c) []) = T c n.
+Proof. exact rounds_correct. Qed.
+
+(* the wire-level statement about run_c01 itself: status (0 0) => the printed levels 0..N are the true tables *)
+Theorem C01_run_correct : forall (inp : sx) T npar vpos kpos,
+  T_ok T npar -> (forall l m, canon (T l m)) ->
+  (forall c d, nth_error (map dec_cdesc (sx_list (sx_nth inp 2))) c = Some d -> deps_shape d) ->
+  (forall c d, nth_error (map dec_cdesc (sx_list (sx_nth inp 2))) c = Some d ->
+     rule_contract T npar vpos kpos (sx_Z (sx_nth inp 1)) c d) ->
+  0 <= sx_Z (sx_nth inp 0) ->
+  forall c, sx_nth (sx_nth (run_c01 inp) 1) c = L [I 0; I 0] ->
+  sx_nth (sx_nth (run_c01 inp) 0) c =
+  L (map (fun n => enc_table (T c (Z.of_nat n))) (seq 0 (Z.to_nat (sx_Z (sx_nth inp 0) + 1)))).
+Proof. exact run_c01_correct. Qed.
+
+(* the fuel run_c01 uses reaches a fixed point of the rounds *)
+Theorem C01_run_fuel_suffices : forall (DS : list cdesc) N k, 0 <= N ->
+  let s := rounds (S (k * Z.to_nat (N + 2))) DS N (repeat [] k) (repeat 0 k) in
+  round DS N s = s.
+Proof. exact rounds_reach_fixpoint. Qed.
+
+(* status "stuck" (PARTIAL: no class raised, all declared shifts >= 0): not productive *)
+Theorem C01_stuck_not_productive_partial : forall (DS : list cdesc) N, 0 <= N ->
+  let s := rounds (S (length DS * Z.to_nat (N + 2))) DS N (repeat [] (length DS)) (repeat 0 (length DS)) in
+  (forall c, nth c (snd s) 0 = 0) ->
+  (forall c d l sh, nth_error DS c = Some d -> In (l, sh) (c_deps d) -> 0 <= sh) ->
+  forall (keys : list fkey) c,
+  (forall q, In q keys -> exists d, nth_error DS (parent q) = Some d /\ kids q = c_deps d) ->
+  zlen (tabs_of (fst s) c) <= N -> ~ pumps keys c.
+Proof. exact stuck_not_productive_partial. Qed.
+
+(* and conversely (same partiality): a class that pumps w.r.t. the declared shifts is reported complete —
+   C10's closing sentence "whatever the fixed-point analysis accepts as productive can be evaluated without
+   a class ever depending on a term that is not yet available", for the evaluator that is actually run *)
+Theorem C01_productive_is_complete_partial : forall (DS : list cdesc) N, 0 <= N ->
+  let s := rounds (S (length DS * Z.to_nat (N + 2))) DS N (repeat [] (length DS)) (repeat 0 (length DS)) in
+  (forall c, nth c (snd s) 0 = 0) ->
+  (forall c d l sh, nth_error DS c = Some d -> In (l, sh) (c_deps d) -> 0 <= sh) ->
+  forall (keys : list fkey) c,
+  (forall q, In q keys -> exists d, nth_error DS (parent q) = Some d /\ kids q = c_deps d) ->
+  pumps keys c -> N < zlen (tabs_of (fst s) c).
+Proof. exact productive_complete_partial. Qed.
+
+(* ---- non-vacuity: Spec/AdapterExample.v, a seven-class specification with a statistic (union, product,
+   Complement, Quotient with a parameter and negative declared shifts, three verified classes) all of whose
+   hypotheses are proved ---- *)
+Example C01_run_correct_applied : forall c,
+  sx_nth (sx_nth (run_c01 ex_inp) 1) c = L [I 0; I 0] ->
+  sx_nth (sx_nth (run_c01 ex_inp) 0) c = L (map (fun n => enc_table (ex_T c (Z.of_nat n))) (seq 0 3)).
+Proof. exact ex_run_c01_correct. Qed.
+
+Example C01_run_values :
+  sx_nth (run_c01 ex_inp) 1 = L (repeat (L [I 0; I 0]) 7) /\
+  sx_nth (sx_nth (run_c01 ex_inp) 0) 0 =
+    L [L [L [of_Zs [0]; I 1]]; L [L [of_Zs [1]; I 1]]; L [L [of_Zs [1]; I 1]]] /\
+  sx_nth (sx_nth (run_c01 ex_inp) 0) 2 = L [L []; L [L [of_Zs [1]; I 1]]; L [L [of_Zs [1]; I 1]]] /\
+  sx_nth (sx_nth (run_c01 ex_inp) 0) 5 = L [L [L [of_Zs [0]; I 1]]; L []; L []] /\
+  sx_nth (sx_nth (run_c01 ex_inp) 0) 6 =
+    L [L [L [of_Zs [0]; I 1]]; L [L [of_Zs [0]; I 1]]; L [L [of_Zs [0]; I 1]]].
+Proof. exact ex_run_values. Qed.
+
+Example C01_srule_of_local_applied : forall c r, spec_of ex_ds c = Some r -> local Count.Terms.terms r.
+Proof. exact ex_all_local. Qed.
+
+Example C01_rounds_is_eval_applied :
+  let st := fst (rounds 36 ex_ds 3 (repeat [] 7) (repeat 0 7)) in
+  forall c n, 0 <= n < zlen (tabs_of st c) ->
+  exists f0, forall f, (f0 <= f)%nat ->
+    eval Count.Terms.terms [] (spec_of ex_ds) f c n = nth (Z.to_nat n) (tabs_of st c) [].
+Proof. exact ex_rounds_is_eval. Qed.
+
+Example C01_stuck_applied :
+  run_c01 (L [I 2; I 2; L [enc_cdesc ex_loop]]) = L [L [L []]; L [L [I 1; I 0]]] /\
+  ~ pumps [mkkey 0 [(0%nat, 0)]] 0.
+Proof. split; [exact ex_stuck_status|exact ex_stuck_not_productive]. Qed.
+
+Example C01_deps_shape_near_miss :
+  ~ deps_shape (mkC 1 0 [0] [kX; kY] 2 [3; 4]%nat [(3%nat, 0); (4%nat, 2)] [] [] 0).
+Proof. exact ex_shape_near_miss. Qed.
+
+Print Assumptions C01_canonical_form.
+Print Assumptions C01_term_model_reads_what_the_reads_model_lists.
+Print Assumptions C01_srule_of_local.
+Print Assumptions C01_srule_of_genuine_up_to_representation.
+Print Assumptions C01_constructor_step_sound.
+Print Assumptions C01_srule_ofN_local.
+Print Assumptions C01_srule_ofN_genuine.
+Print Assumptions C01_spec_correct_constructors.
+Print Assumptions C01_rounds_is_eval.
+Print Assumptions C01_rounds_correct.
+Print Assumptions C01_run_correct.
+Print Assumptions C01_run_fuel_suffices.
+Print Assumptions C01_stuck_not_productive_partial.
+Print Assumptions C01_productive_is_complete_partial.
+Print Assumptions C01_run_correct_applied.
